@@ -112,7 +112,14 @@ impl RawValue {
     #[verifier::external_body]
     pub fn get_value(&self) -> (r: JValue) ensures r == self.value_spec() { unimplemented!() }
 }
-pub struct SecurityTetraplet { pub x: u8 }
+// real fields (marine-call-parameters 0.14.0), so that code which rebuilds a tetraplet from its parts is within reach (seed3-C11)
+pub struct SecurityTetraplet { pub peer_pk: String, pub service_id: String, pub function_name: String, pub lens: String }
+impl SecurityTetraplet {
+    #[verifier::external_body]
+    pub fn new(peer_pk: &str, service_id: &str, function_name: &str, lens: &str) -> (r: Self)
+        ensures r.peer_pk@ == peer_pk@, r.service_id@ == service_id@, r.function_name@ == function_name@, r.lens@ == lens@
+    { unimplemented!() }
+}
 pub type RcSecurityTetraplet = Rc<SecurityTetraplet>;
 impl Serialize for SecurityTetraplet {}
 
@@ -326,7 +333,7 @@ impl ExecutionCidState {
 //@ end
 
 //@ lift air/src/execution_step/execution_context/cid_state.rs :: impl ExecutionCidState :: fn track_canon_value
-//@ props C09 C01
+//@ props C09 C01 C11 C17
 //@ ret r
 //@ before "let value_cid = self.value_tracker.track_raw_value(vm_value);"
         proof { ax::rc_from::<RawValue>(vm_value); }
@@ -370,7 +377,7 @@ impl ExecutionCidState {
 //@ end
 
 //@ lift air/src/execution_step/execution_context/cid_state.rs :: impl ExecutionCidState :: fn get_canon_value_by_cid
-//@ props C01 C09
+//@ props C01 C09 C11 C17
 //@ ret r
 //@ rewrite 1 "|| UncatchableError::ValueForCidNotFound(\"canon aggregate\", cid.get_inner()))" => "|| -> (o: UncatchableError) ensures o == not_found(\"canon aggregate\", *cid) { UncatchableError::ValueForCidNotFound(\"canon aggregate\", cid.get_inner()) })"
 //@ spec
